@@ -252,6 +252,7 @@ inductive Call
   | unary (adv : Adv) (param : B) (via : Via) (outcome : Outcome) (hold : Bool)
   | stream (adv : Adv) (param : B) (via : Via) (initErr : Option String) (turns : List Turn) (hold : Bool)
   | release                -- the client releases every pointer it still holds
+  | releaseOne (i : Nat)   -- the client releases the i-th most recently received pointer it holds
   deriving Repr
 
 structure World where
@@ -295,6 +296,11 @@ def reclaimOpt (segs : Segs) : Option Wire → Segs
 /-- One call through `serveOne`, client side included. -/
 def runCall (w : World) : Call → World × List Item
   | .release => ({ w with segs := releaseAll w.segs w.held, held := [] }, [])
+  | .releaseOne i =>
+    match w.held[i]? with
+    | none => (w, [])
+    | some p =>
+      ({ w with segs := updateAt w.segs p.1 (segFree · p.2), held := w.held.filter fun q => q != p }, [])
   | .unary adv param via outcome hold =>
     let attached := (ensure w.cached adv).1
     let (segs1, wire) := clientSend w.segs attached param via
@@ -340,10 +346,12 @@ def Call.plain : Call → Call
   | .unary _ param _ outcome hold => .unary .none param .inline outcome hold
   | .stream _ param _ initErr turns hold => .stream .none param .inline initErr (turns.map Turn.plain) hold
   | .release => .release
+  | .releaseOne i => .releaseOne i
 
 def Call.wellBehaved : Call → Bool
   | .unary _ _ via _ _ => via.wellBehaved
   | .stream _ _ via _ turns _ => via.wellBehaved && turns.all fun t => t.via.wellBehaved
   | .release => true
+  | .releaseOne _ => true
 
 end Vgi.ShmSession
